@@ -64,4 +64,26 @@ def publicList : List Q → Bool
   | q :: qs => publicQ q && publicList qs
 end
 
+/-! ## what the translator tables must satisfy (checked as theorems over `Generated/C24Wire.lean`) -/
+
+/-- the node kinds the model's `Q` has a constructor for (besides `nilQ` and the internal `caseQ`), by Go type name,
+    sorted: must be exactly the exported types of package query that implement `Q` -/
+def modelKinds : List String :=
+  ["And", "Boost", "Branch", "BranchesRepos", "Const", "FileNameSet", "Language", "Meta", "Not", "Or", "RawConfig",
+   "Regexp", "Repo", "RepoIDs", "RepoRegexp", "RepoSet", "Substring", "Symbol", "Type"]
+
+/-- struct fields that are deliberately not on the wire (each is reported as a KNOWN-FINDING by the harness) -/
+def wireExempt : List (String × String) :=
+  [("SearchOptions", "SpanContext"), ("SearchResult", "RepoURLs"), ("SearchResult", "LineFragments")]
+
+/-- every field of the Go struct is read by `ToProto` and written by `FromProto` -/
+def fieldsCovered (row : String × List String × List String × List String) : Bool :=
+  row.2.1.all fun f => wireExempt.contains (row.1, f) || (row.2.2.1.contains f && row.2.2.2.contains f)
+
+/-- every field of the protobuf message is set by `ToProto` and read by `FromProto` -/
+def protoFieldsCovered (row : String × List String × List String × List String) : Bool :=
+  row.2.1.all fun f => row.2.2.1.contains f && row.2.2.2.contains f
+
+def swapPair (p : String × String) : String × String := (p.2, p.1)
+
 end ZoektModel.C24
